@@ -82,6 +82,24 @@ def cls_subject_type_formfeed(f):
     return re.search(rb">[\t\n\x0c\r ]+\"", bytes.fromhex(f["value"]["s"]["t"])) is not None
 
 
+def anchors_of(kind, v):
+    if kind == "pred":
+        return [v["a"]] if v["a"] else []
+    if kind == "obj":
+        return anchors_of("pred", v["p"]) if v["k"] == "p" else []
+    if kind == "triple":
+        return anchors_of("pred", v["p"]) + anchors_of("obj", v["o"])
+    return []
+
+
+def cls_anchor_zone_seconds(f):
+    """RFC3339 has no seconds in the zone offset: an anchor in a zone such as LMT +00:19:32 prints a truncated offset and
+    parses back as a different instant"""
+    if f["class"] != "roundtrip":
+        return False
+    return any(int(a["off"]) % 60 != 0 for a in anchors_of(f["vk"], f["value"]))
+
+
 def cls_graph_newline(f):
     """a text literal or node id containing a newline is written as two lines"""
     if f["class"] != "graph-roundtrip":
@@ -95,7 +113,8 @@ def cls_graph_uuid_collision(f):
 
 
 CLASSIFIERS = {"node_type_lt": cls_node_type_lt, "nan_payload": cls_nan_payload, "triple_pred_id_split": cls_triple_pred_id_split,
-               "graph_newline": cls_graph_newline, "subject_type_formfeed": cls_subject_type_formfeed}
+               "graph_newline": cls_graph_newline, "subject_type_formfeed": cls_subject_type_formfeed,
+               "anchor_zone_seconds": cls_anchor_zone_seconds}
 
 
 def failures_of(r):
